@@ -423,6 +423,8 @@ def footprint_cases(rng, sysd):
         ("ok", mk_cmd("design", b, rng, struct=True, tempname="t" + u + ".st", output="m" + u + ".mfe")),
         ("ok", mk_cmd("design", "Raw" + b, rng)),
         ("usage", mk_cmd("design", "Nope" + u, rng, tempname="tn")),
+        ("ok", mk_cmd("design", b, rng, tempname="trial=" + u, decoys=["trial_%s%s" % (u, e) for e in TEMP_EXTS])),
+        ("ok", mk_cmd("design", b, rng, just_files=False, tempname="trial:" + u, decoys=["trial_%s%s" % (u, e) for e in TEMP_EXTS])),
         # a temp name / output name that is also the name of an existing DIRECTORY of the working directory (a folder of an earlier
         # run): the scratch files are still <tempname>.st ..., beside the folder, not inside it
         ("ok", mk_cmd("design", b, rng, tempname="run" + u, dirs=["run" + u, "run%s.d" % u], decoys=["run%s/%s.st" % (u, b), "run%s/keep.txt" % u])),
@@ -583,7 +585,8 @@ def gen_schedule(rng, sysd, n):
             if not default_temp and rng.random() < 0.15:
                 default_temp, t = True, None
             else:
-                t = rng.choice(["t%d", "t%d.st", "t.%d", "tmp%d.sp.wc", "T%d"]) % k
+                # (names with characters that are neither letters, digits nor _ . / + - : they are file names like any other)
+                t = rng.choice(["t%d", "t%d.st", "t.%d", "tmp%d.sp.wc", "T%d", "t=%d", "t:%d", "t,%d", "t@%d", "t_%d"]) % k
                 if rng.random() < 0.15:
                     t = "t" + ".st" * k        # t, t.st, t.st.st, …: scratch names of one are prefixes of another's
                 elif rng.random() < 0.2:
